@@ -13,7 +13,7 @@ ENGINE_TEXT = {
     "sm": "StateMachine / AutonomousStateMachine under a simulated control loop: generated machine classes (real decorators), seeded op+fault plans, paused HAL clock, real ntcore",
 }
 
-INTEGRATION_NOTE = "; every 12th run is an integration run: the machine is a component (or the selected autonomous mode) of a generated MagicRobot executed by engine robot, so engage() comes from teleopPeriodic, on_disable() from real mode changes, pacing from the real NotifierDelay and, for autonomous modes, tm from the selector's timer"
+INTEGRATION_NOTE = "; every 6th run is an integration run: the machine is a component (or the selected autonomous mode) of a generated MagicRobot executed by engine robot, so engage() comes from teleopPeriodic, on_disable() from real mode changes, pacing from the real NotifierDelay and, for autonomous modes, tm from the selector's timer"
 
 def _sm(rule, probes, quick=9000, thorough=400000):
     rule = rule + INTEGRATION_NOTE
